@@ -44,6 +44,9 @@ func checkC04(c *Ctx) {
 	c.Decides("HASH-AFTER-CLEAR: every caller of ClearBitSets (which zeroes the branch hash codes too) recomputes the hashes afterwards")
 	c.hashAfterClear("HASH-AFTER-CLEAR")
 	c.Floor("HASH-AFTER-CLEAR", 2)
+	c.Decides("REORIENT-REINDEX: every exported method of Tree that re-orients branches (reaches ReorderEdges) also reaches UpdateBitSet, ComputeEdgeHashes and ComputeDepths: the per-side hash codes and tip counts depend on the orientation")
+	c.reorientReindex("REORIENT-REINDEX", "every branch's recorded split (tip counts on both sides) equals the split obtained by cutting that branch")
+	c.Floor("REORIENT-REINDEX", 3)
 	c.Floor("LOSTWRITE", 1)
 	c.Floor("NET", 1)
 	c.Floor("PRESENT", 3)
@@ -447,6 +450,38 @@ func (c *Ctx) equalOrComplementSiblings() {
 			}
 		}
 		c.Check(found && other == "", "SIBLING", "tree.Edge."+n+"/EqualOrComplement", fi.Decl.Pos(), "decides with EqualOrComplement", "tree.Edge."+n+" does not decide equality with bitset.EqualOrComplement (found "+other+"): the same split seen from the other side compares different").Clause = clause
+		// the two equality predicates decide on split data alone: every constant `false` they return is
+		// guarded by conditions on hash codes or bit sets (not on what kind of node hangs below: a tip
+		// branch and the inner root branch next to it carry the same split in a rooted tree)
+		if n != "FindEdge" {
+			nret := 0
+			ast.Inspect(fi.Decl.Body, func(m ast.Node) bool {
+				r, ok := m.(*ast.ReturnStmt)
+				if !ok || len(r.Results) != 1 {
+					return true
+				}
+				tv, isC := info.Types[r.Results[0]]
+				if !isC || tv.Value == nil || tv.Value.String() != "false" {
+					return true
+				}
+				nret++
+				conds, okc := c.pathConds(info, fi.Decl.Body, r, false)
+				good := okc
+				var off string
+				for _, cd := range conds {
+					if cd.Expr == nil {
+						good, off = false, "switch"
+						continue
+					}
+					k := c.canon(info, cd.Expr, nil)
+					if !strings.Contains(k, "HashCode()") && !strings.Contains(k, "bitset") && !strings.Contains(k, "hashcode") {
+						good, off = false, c.src(cd.Expr)
+					}
+				}
+				c.Check(good, "SIBLING", fmt.Sprintf("tree.Edge.%s/rejects-on-split-data#%d", n, nret), r.Pos(), "`return false` only under conditions on hash codes / bit sets", "tree.Edge."+n+" returns false under `"+off+"`, a condition that is not about the split (hash code, bit set): two branches that carry the same split but differ in that respect (a tip branch and the inner root branch beside it) compare different").Clause = clause
+				return true
+			})
+		}
 		// a hash pre-test may only reject: `if a.HashCode() != b.HashCode() { return false / continue }`
 		ast.Inspect(fi.Decl.Body, func(m ast.Node) bool {
 			is, ok := m.(*ast.IfStmt)
